@@ -1719,6 +1719,11 @@ where
                     (Command::ShowPrimaryReads, value) => {
                         show_response(&mut self.write, "primary reads", &value).await?;
                     }
+
+                    // Custom command with an unusable argument
+                    (Command::Invalid, message) => {
+                        error_response(&mut self.write, &message).await?;
+                    }
                 };
 
                 Ok(true)
